@@ -36,7 +36,7 @@ def accepts_what_the_rfc_rejects(o, i, m):
 
 CFG = dict(
     streams=[('frame', 2500, 40000)],
-    oracle_ops={'frt', 'frtmeta', 'frdspec'},
+    oracle_ops={'frt', 'frtmeta', 'frtmeta2', 'frdspec'},
     self_evident=lambda o, i: 'panic' in i or over_limit(o, i),
     spec_part=accepts_what_the_rfc_rejects,
     rule=("every Write* method with boundary parameters (stream ids 0, 1, 2^31-1, 2^31, 2^32-1; payloads 0..16384 bytes; padding "
